@@ -308,6 +308,19 @@ def run(chk):
     for a, b in pairs[:npairs]:
         texts.append(f"{a} and {b}")
         texts.append(f"{a} or {b}")
+    # structured family: every python_version atom with every python_full_version atom (same literal text included), both connectives,
+    # both orders — the normalisation/merging of the two variables is the most intricate path of the parser glue
+    pv = [t for t in atoms if "python_version" in t and not t.startswith('"')] + ['python_version > "3.7"', 'python_version <= "3.7"', 'python_version == "3.7"']
+    pfv = [t for t in atoms if "python_full_version" in t and not t.startswith('"')] + [f'python_full_version {op} "{v}"' for op in (">", "<=", "==", "!=", ">=", "<") for v in ("3.8", "3.7")]
+    for a in pv:
+        for b in pfv:
+            texts.append(f"{a} and {b}")
+            texts.append(f"{b} or {a}")
+    # same-variable pairs of == / != atoms with literals that are equal as versions but spelled differently, or not of the X.Y shape
+    for lits in (("3", "3.8"), ("3.7.0", "3.8"), ("3.0", "3"), ("3.8", "3.8.0")):
+        texts.append(f'python_version == "{lits[0]}" or python_version == "{lits[1]}"')
+        texts.append(f'python_version != "{lits[0]}" and python_version != "{lits[1]}"')
+        texts.append(f'python_full_version == "{lits[0]}" or python_full_version == "{lits[1]}"')
     triples = 500 if chk.tier == "quick" else 4000
     for _ in range(triples):
         a, b, c = rnd.sample(atoms, 3)
